@@ -427,12 +427,14 @@ def run(ctx):
               'read_conference_create_response does not take each block body (declared length - 4 bytes) off the stream with one read_exact (%s): bytes a '
               'block parser leaves unread would be taken for the next block header' % why)
     n_parsers = 0
+    covered = set()
     for c in gc.calls:
         if not re.search(r'Message(>)?::read$', c.callee) or not c.args:
             continue
         self_src = [o.call.callee for o in origins(gc, c.args[0]) if o.kind == 'call']
         if not any(re.search(r'gcc::server_(core|security|network)_data$', x) for x in self_src):
             continue
+        covered |= {x for x in self_src if re.search(r'gcc::server_(core|security|network)_data$', x)}
         n_parsers += 1
         rsrc = [o.call for o in origins(gc, c.args[1]) if o.kind == 'call']
         names = [x.callee for x in rsrc]
@@ -442,7 +444,7 @@ def run(ctx):
         ctx.check(good, 'R18.6', 'gcc:parser:%s' % [x for x in self_src if 'server_' in x][0].rsplit('::', 1)[-1],
                   'the block parser reads from a cursor over the extracted body, after it has been taken off the stream', c.where(),
                   'a GCC block parser reads directly from the response stream (%s): what it does not consume is left in front of the next block' % names[:3])
-    ctx.floor('R18.6', 'GCC server block parsers', n_parsers, 3)
+    ctx.floor('R18.6', 'GCC server block layouts whose parser call was examined (one shared call may serve the three)', len(covered), 3)
 
 def const_return(body):
     for bi in range(body.n):
